@@ -121,7 +121,7 @@ def two_requests(i1: int, i2: int, j1: int, j2: int, app_writes: bool) -> bool:
     # request only - nothing of the first request, and nothing the application stored in the first environ.
     # CrossHair runs functools.lru_cache'd functions uncached while tracing, which would hide exactly the sharing this
     # obligation is about: the solver picks the (small) inputs, the two requests then run with tracing off.
-    from crosshair.tracers import NoTracing
+    from engine.harness_api import untraced as NoTracing
     i1, i2, j1, j2 = pick(i1, 0, 5), pick(i2, 0, 5), pick(j1, 0, 3), pick(j2, 0, 3)
     app_writes = bool(pick(int(app_writes), 0, 1))
     with NoTracing():
